@@ -111,8 +111,44 @@ def outcome_sockreader(frame, labelmsm):
         sock.close()
 
 
+def outcome_reader_resume(data, labelmsm):
+    """`data` = one damaged frame followed by one good frame; a raise-mode reader is consumed through ONE iterator
+    object: the error for the first frame is caught, then the SAME iterator is asked for the next message."""
+    import io
+
+    from pyrtcm import RTCMReader
+
+    it = iter(RTCMReader(io.BytesIO(data), validate=1, quitonerror=2, labelmsm=labelmsm))
+    try:
+        next(it)
+        return ("n", "first frame was not refused")
+    except StopIteration:
+        return ("n", 0)
+    except Exception:
+        pass
+    try:
+        raw, m = next(it)
+        return ("ok", m.identity, tuple((k, v) for k, v in m.__dict__.items() if not k.startswith("_")))
+    except StopIteration:
+        return ("n", 0)
+    except Exception as e:
+        return ("err", type(e).__name__)
+
+
+def outcome_parse_v0(frame, labelmsm):
+    """Static parse with validation OFF (accepts wrong checksum bytes)."""
+    from pyrtcm import RTCMReader
+
+    try:
+        m = RTCMReader.parse(frame, validate=0, labelmsm=labelmsm)
+        return ("ok", m.identity, tuple((k, v) for k, v in m.__dict__.items() if not k.startswith("_")))
+    except Exception as e:
+        return ("err", type(e).__name__)
+
+
 OPS = {"ctor": outcome_ctor, "parse": outcome_parse, "reader": outcome_reader, "parse_tmp": outcome_parse_tmp,
-       "reader_tmp": outcome_reader_tmp, "sockreader": outcome_sockreader}
+       "reader_tmp": outcome_reader_tmp, "sockreader": outcome_sockreader, "reader_resume": outcome_reader_resume,
+       "parse_v0": outcome_parse_v0}
 
 
 def same(a, b):
@@ -230,6 +266,20 @@ def build_corpus(seed, per_identity):
         op = rng.choice(("parse_tmp", "reader_tmp"))
         corpus.append(dict(op=op, data=fr, labelmsm=1, tag="twin-good", enc=None, fails=False))
         corpus.append(dict(op=op, data=bad, labelmsm=1, tag="twin-bad", enc=None, fails=True))
+    # a damaged frame, then a good one, consumed through one iterator in raise mode; the history-free result of the
+    # good frame is what the constructor gives for its payload
+    for _ in range(16):
+        good = refcrc.frame(streams.rand_defined_payload(rng))
+        other = refcrc.frame(streams.rand_defined_payload(rng))
+        bad = other[:-1] + bytes([other[-1] ^ 0x21])
+        corpus.append(dict(op="reader_resume", data=bad + good, labelmsm=1, tag="resume-after-error", enc=None,
+                           fails=False, base_op="ctor", base_data=good[3:-3]))
+    # the same wrong-checksum frame with validation off (accepted) and on (refused), to be run back to back
+    for _ in range(12):
+        fr = refcrc.frame(streams.rand_defined_payload(rng))
+        bad = fr[:-1] + bytes([fr[-1] ^ 0x08])
+        corpus.append(dict(op="parse_v0", data=bad, labelmsm=1, tag="v0-twin", enc=None, fails=False))
+        corpus.append(dict(op="parse", data=bad, labelmsm=1, tag="v1-twin", enc=None, fails=True))
     for p in (b"", b"\x3e", b"\xfe\xc0", b"\x43\x50"):
         corpus.append(dict(op="ctor", data=p, labelmsm=1, tag="short", enc=None, fails=True))
     return corpus
@@ -354,7 +404,7 @@ def run(ctx):
     # ---- baseline (first parse, fixed order) + cross-check with refmodel
     base = []
     for e in corpus:
-        o = OPS[e["op"]](e["data"], e["labelmsm"])
+        o = OPS[e.get("base_op", e["op"])](e.get("base_data", e["data"]), e["labelmsm"])
         base.append(o)
         if e["fails"]:
             ctx.hit("failing_entries")
@@ -473,6 +523,15 @@ def run(ctx):
                     return
                 ctx.hit("sequential_parses", 3)
     # good twin then corrupt twin of the same size, back to back through temporary buffers
+    v0 = [i for i, e in enumerate(corpus) if e["tag"] == "v0-twin"]
+    for _ in range(5 if ctx.quick else 100):
+        for i in v0:
+            # accepted without validation, then the very same bytes with validation on, then the other way round
+            if not verify(i, None, "twins") or not verify(i + 1, i, "validate1-after-validate0") or not verify(
+                    i, i + 1, "validate0-after-validate1"):
+                return
+            ctx.hit("sequential_parses", 3)
+            ctx.hit("validate_twin_pairs")
     twins = [i for i, e in enumerate(corpus) if e["tag"] == "twin-good"]
     for _ in range(20 if ctx.quick else 400):
         for i in twins:
